@@ -6,6 +6,7 @@ From JB Require Import Constants Bytes Utf8 Num Value Codec Decimal JsonText Ord
   Render Serde Path PathSem PathParse Dispatch Walk CompareWalk ComparableWalk.
 From JB Require Import RenderWalk.
 From JB Require Import SelWalk.
+From JB Require Import CastWalk.
 Extraction Language OCaml.
 Extraction "model.ml"
   to_vec write_to_vec enc parse_jsonb is_jsonb assoc_insert
@@ -14,6 +15,8 @@ Extraction "model.ml"
   compare_w comparable_w
   to_string_w to_pretty_string_w
   array_length_w get_by_index_w get_by_name_w get_by_keypath_w object_keys_w object_each_w array_values_w
+  type_of_w as_null_w as_bool_w as_number_w as_i64_w as_u64_w as_f64_w as_str_w is_array_w is_object_w
+  to_bool_w to_i64_w to_u64_w to_f64_w to_str_w traverse_check_string_w
   array_length_m get_by_index_m get_by_name_m get_by_keypath_m object_keys_m object_each_m array_values_m type_of_m
   as_null_m as_bool_m as_number_m as_i64_m as_u64_m as_f64_m as_str_m is_array_m is_object_m
   to_bool_m to_i64_m to_u64_m to_f64_m to_str_m exists_all_keys_m exists_any_keys_m traverse_check_string_m
